@@ -90,12 +90,19 @@ def main():
         # one or two connections interleaved; records spanning packets (small segments), several records per packet (whole flights)
         s1 = tlsgen.single(rng, table, code, ver, h2, schedule=rng.choice(["small", "mss", "whole", "random"]), nrec=rng.choice([1, 3, 6]), reclen=rng.choice([1, 40, 300]))
         pk = s1.packets
+        # what a lossy path adds to a capture: exact duplicates, coalesced and partial retransmissions, late segments
+        kind = ["plain", "coalesced", "duplicate", "partial", "late", "coalesced"][i % 6]
+        if kind != "plain":
+            pk2 = capgen.perturb(rng, pk, kind)
+            kind = kind if pk2 is not None else "plain"
+            pk = pk2 if pk2 is not None else pk
+        hist["capture=" + kind] += 1
         keylog = s1.keylog
         if i % 3 == 0:
             code2 = codes[(i + 7) % len(codes)]
             ver2 = rng.choice(tls_ref.valid_versions(code2, iana_ref.denote(table[code2])))
             s2 = tlsgen.single(rng, table, code2, ver2, h2, schedule="random", nrec=2, reclen=50)
-            pk = capgen.merge(rng, [s1.packets, s2.packets])
+            pk = capgen.merge(rng, [pk, s2.packets])
             keylog += s2.keylog
         hist["version=" + ver] += 1
         meta = (i % 4 == 1)
@@ -106,7 +113,7 @@ def main():
         m.close()
     impl.cleanup()
     ck.cov["traces_validated_against_impl"] = ck.cov["evaluations"]
-    ck.cov["rule"] = ("every cut position 0..N of reference captures (one or two interleaved TLS connections, records spanning packets and packets carrying several "
+    ck.cov["rule"] = ("every cut position 0..N of reference captures (one or two interleaved TLS connections, plain or with a duplicate / coalesced retransmission / partial retransmission / late segment, records spanning packets and packets carrying several "
                       "records, with and without -a); per flow and direction the cut export must be a prefix of the full export; distinct = (capture, cut)")
     ck.cov["dimension_histogram"] = dict(hist)
     if disagreements:
